@@ -54,6 +54,20 @@ def run_one(name, extra_checks):
         clean = demo(wt, d)
         ap = sh(["git", "-C", wt, "apply", os.path.join(d, "patch.diff")])
         if ap.returncode != 0:
+            # /repo moved on (a later fix: commit touched the same lines): try a three-way merge against the blobs the patch names
+            sh(["git", "-C", wt, "checkout", "--", "."])
+            ap3 = sh(["git", "-C", wt, "apply", "--3way", os.path.join(d, "patch.diff")])
+            if ap3.returncode == 0:
+                sh(["git", "-C", wt, "reset", "-q"])
+                newp = sh(["git", "-C", wt, "diff"]).stdout
+                if newp.strip():
+                    with open(os.path.join(d, "patch.diff"), "wb") as f:
+                        f.write(newp)
+                    meta["rebased_onto"] = sh(["git", "-C", "/repo", "rev-parse", "--short", "HEAD"]).stdout.decode().strip()
+                    ap = ap3
+            else:
+                sh(["git", "-C", wt, "reset", "-q", "--hard", "HEAD"])
+        if ap.returncode != 0:
             meta["applies"] = False
             meta["apply_error"] = ap.stdout.decode()[-500:]
             print(name, "PATCH DOES NOT APPLY to current /repo HEAD")
